@@ -469,6 +469,7 @@ partial def evalExpr (P : Prog) (env : Env) : Expr → M (Val × Env)
         | .list xs => pure xs
         | _ => throw (.invalid "np.concatenate of a non-array")
       pure (.list ls.flatten, env)
+    | "np.flipud", [.list xs] => pure (.list xs.reverse, env)
     | "np.sort", [.list xs] => do
       let idx ← stableSortIdx xs
       pure (.list (idx.filterMap fun i => xs[i]?), env)
